@@ -444,6 +444,36 @@ def apply_fn_rules(fn, d, log):
     body = strip_attrs_and_docs(body, log)
     sig = drop_auto_traits(sig, log)
     body = drop_auto_traits(body, log)
+    # R4g: every invocation `name!( .. )` of a listed macro is replaced by one expression (token-balanced, so string contents do not matter)
+    for mac in d.get("macros", []):
+        n = 0
+        while True:
+            toks = [t for t in lex(body) if t[0] in CODE]
+            hit = None
+            for k in range(len(toks) - 2):
+                if (toks[k][0] == "ident" and body[toks[k][1]:toks[k][2]] == mac["name"] and body[toks[k + 1][1]:toks[k + 1][2]] == "!"
+                        and body[toks[k + 2][1]:toks[k + 2][2]] in ("(", "[", "{")):
+                    hit = k
+                    break
+            if hit is None:
+                break
+            depth, end = 0, None
+            for k in range(hit + 2, len(toks)):
+                t = body[toks[k][1]:toks[k][2]]
+                if toks[k][0] != "punct":
+                    continue
+                if t in "([{":
+                    depth += 1
+                elif t in ")]}":
+                    depth -= 1
+                    if depth == 0:
+                        end = toks[k][2]
+                        break
+            if end is None:
+                raise ExtractError("macro %s!: unbalanced invocation in %s" % (mac["name"], d["name"]))
+            body = body[:toks[hit][1]] + mac["repl"] + body[end:]
+            n += 1
+        log.append({"rule": "R4g/macro", "fn": d["name"], "macro": mac["name"], "count": n})
     # T9 (at the original site): a closure that is verified separately is replaced by an opaque value
     for cut in d.get("cuts", []):
         toks = [t for t in lex(body) if t[0] in CODE]
@@ -661,6 +691,12 @@ class Unit:
                         if len(body) != 1:
                             raise ExtractError("//@cut needs exactly 1 line")
                         d.setdefault("cuts", []).append({"open": sec[1].strip(), "repl": body[0].strip()})
+                    elif kind == "macro":
+                        # //@macro <name>  + one line: the expression every `<name>!(..)` invocation is replaced by (token-balanced)
+                        body = [b for b in buf if b.strip() != ""]
+                        if len(body) != 1:
+                            raise ExtractError("//@macro needs exactly 1 line")
+                        d.setdefault("macros", []).append({"name": sec[1].strip(), "repl": body[0].strip()})
                     elif kind == "spec":
                         d["spec"] = buf[:]
                     elif kind == "sig":
